@@ -351,9 +351,9 @@ macro_rules! heartbeat_e2e {
         }
     };
 }
-heartbeat_e2e!(c07_heartbeat_e2e_cut2_pl2, 2, 2);
 heartbeat_e2e!(c07_heartbeat_e2e_cut0_pl1, 0, 1);
-heartbeat_e2e!(c07_heartbeat_e2e_cut4_pl4, 4, 4);
+heartbeat_e2e!(c07_heartbeat_e2e_cut0_pl4, 0, 4);
+heartbeat_e2e!(c07_heartbeat_e2e_cut1_pl0, 1, 0);
 
 fn a_len(v: &Vec<TlsMessage>) -> usize {
     match v.first() {
